@@ -126,7 +126,9 @@ class Finders:
       if record_type == "H":
         # the header is a single (multi-line) line, not a collection
         return self.headers
-      d = self._records[record_type]
+      # (a lookup by index would add an empty collection for a record type
+      # without lines, which fixes the place of that type in later output)
+      d = self._records.get(record_type, {})
       if record_type == "F":
         retval = []
         for v in d.values():
